@@ -15,5 +15,7 @@ def run(rep, kf, tier, seed):
     reg = Registry()
     cu.build(reg)
     engine_a.discharge(rep, kf, reg, "C09", tier, seed)
+    from props.common import run_bounded
+    run_bounded(rep, kf, "C09", ["param_conflicts", "model_properties", "enum_values"], tier)
     rep.trusted.extend(TRUSTED)
     return {"level": "proof"}
